@@ -221,6 +221,34 @@ def run(tier, seed, only=None):
                     run_obligations(rep, tag + " upper-skin strength factor %g" % tf, obs, timeout, levels=(1, 2), replay=rpT, relate=[], relate_assume=pos,
                                     family=lambda ob, cls=cls: "%s: %s" % (cls, ob.meta["family"]), fixed={"eps": 0.001})
         # ---------------- FailureExact
+        if ny == 2 and tier == "quick":
+            # the upper-skin factor relation on a beam of two elements as well (element-by-element handling of the factor)
+            s3 = K.surface(2, 3, True, fem_model_type="wingbox")
+            sc3 = SymComp("structures.vonmises_wingbox", "VonMisesWingbox", surface=s3)
+            ins3 = sc3.inputs()
+            vm3 = sc3.sym1(ins3)["vonmises"]
+            pos3 = [gt(x, 0) for n in sc3.in_names if n not in ("nodes", "disp") for x in ins3[n].ravel()]
+            for tf in (0.75, 1.25):
+                sT3 = dict(s3, strength_factor_for_upper_skin=tf)
+                vT3 = SymComp("structures.vonmises_wingbox", "VonMisesWingbox", surface=sT3).sym1(ins3)["vonmises"]
+                obs = []
+                for e in range(2):
+                    for c in range(4):
+                        fac = S(tf) if c in (0, 3) else ONE
+                        obs.append(oblig.Ob("factor %g vm[%d,%d] (two elements)" % (tf, e, c), lhs=vT3[e, c] * fac, rhs=vm3[e, c], assume=pos3,
+                                            meta={"family": "upper-skin combinations are stress / strength factor, the others do not depend on it", "idx": [e, c], "tf": tf}))
+
+                def rpT3(ob, env, sT3=sT3, s3=s3, ins3=ins3):
+                    envf = model.FillEnv(env)
+                    vals = num_inputs(ins3, envf)
+                    a = SymComp("structures.vonmises_wingbox", "VonMisesWingbox", surface=sT3).real(vals)["vonmises"]
+                    b = SymComp("structures.vonmises_wingbox", "VonMisesWingbox", surface=s3).real(vals)["vonmises"]
+                    i = tuple(ob.meta["idx"])
+                    fac = ob.meta["tf"] if i[1] in (0, 3) else 1.0
+                    return model.differs(a[i] * fac, b[i], 1e-6), "strength factor %g: vonmises%s * factor = %.9g, with factor 1: %.9g" % (ob.meta["tf"], list(i), a[i] * fac, b[i])
+
+                run_obligations(rep, "VonMisesWingbox[ny=3] upper-skin strength factor %g" % tf, obs, timeout, levels=(1, 2), replay=rpT3, relate=[], relate_assume=pos3,
+                                family=lambda ob: "VonMisesWingbox: " + ob.meta["family"])
         s = K.surface(2, ny, True)
         sc = SymComp("structures.failure_exact", "FailureExact", surface=s)
         rep.encode(type(sc.comp))
